@@ -560,6 +560,35 @@ static void run_registry(void)
         int t = perm[i]; perm[i] = perm[j]; perm[j] = t;
         for (int lo = i + 1, hi = 3; lo < hi; lo++, hi--) { t = perm[lo]; perm[lo] = perm[hi]; perm[hi] = t; }
     }
+    /* many instances alive at once (nothing in the interface bounds their number): descriptors stay unique, every one of a
+     * rotating sample keeps round-tripping while others come and go, everything is gone at the end */
+    for (int round = 0; round < (MO.thorough ? 6 : 2); round++) {
+        if (!mon_case("many-live-instances|round=%d", round)) continue;
+        enum { NMANY = 320 };
+        static live_t M[NMANY]; static int alive[NMANY];
+        static const cfg_t cf[] = { { EC_BACKEND_NULL, 4, 2, 2, 0, CHKSUM_NONE }, { EC_BACKEND_FLAT_XOR_HD, 3, 3, 3, 0, CHKSUM_CRC32 }, { EC_BACKEND_LIBERASURECODE_RS_VAND, 2, 1, 1, 0, CHKSUM_NONE },
+                                    { EC_BACKEND_FLAT_XOR_HD, 5, 5, 3, 0, CHKSUM_NONE }, { EC_BACKEND_LIBERASURECODE_RS_VAND, 3, 2, 2, 0, CHKSUM_CRC32 } };
+        int base = registry_len(); int nlive = 0;
+        memset(alive, 0, sizeof alive);
+        rng_t r; rng_seed(&r, MO.seed, 0x14500 + (uint64_t)round);
+        for (int i = 0; i < NMANY; i++) {
+            if (live_open(&M[i], &cf[(i + round) % 5], 40 + (uint64_t)(i % 7), MO.seed + (uint64_t)i) != 0) { mon_viol("C14", "create-failed", "instance #%d of many could not be created", i); break; }
+            alive[i] = 1; nlive++;
+            for (int j = 0; j < i; j++) if (alive[j] && M[j].desc == M[i].desc) { mon_viol("C14", "descriptor-not-unique", "instance #%d got descriptor %d, which instance #%d still holds", i, M[i].desc, j); break; }
+            if (M[i].desc <= 0) mon_viol("C14", "descriptor-not-positive", "descriptor %d", M[i].desc);
+            if (i % 16 == 5) { int v = (int)rng_below(&r, (uint32_t)i + 1); if (alive[v]) live_roundtrip(&M[v], "C14", "one of many live instances", v); }
+            if (i % 3 == 2) { int v = (int)rng_below(&r, (uint32_t)i + 1); if (alive[v]) { int d = M[v].desc; if (liberasurecode_instance_destroy(d) != 0) mon_viol("C14", "destroy-failed", "destroy of instance #%d (descriptor %d) among many failed", v, d); M[v].desc = -1; live_close(&M[v]); alive[v] = 0; nlive--;
+                                   if (liberasurecode_get_fragment_size(d, 10) >= 0) { int re = 0; for (int j = 0; j <= i; j++) if (alive[j] && M[j].desc == d) re = 1; if (!re) mon_viol("C14", "dead-descriptor-accepted", "descriptor %d answers a query after its destroy", d); } } }
+            if (registry_len() != base + nlive) { mon_viol("C14", "registry-length", "registry holds %d instances, model %d", registry_len(), base + nlive); break; }
+        }
+        mon_count("evaluations", NMANY); mon_count("many_instances_peak", nlive);
+        for (int i = 0; i < NMANY; i++) if (alive[i] && i % 5 == round % 5) live_roundtrip(&M[i], "C14", "survivor among many", i);
+        int order = round & 1;
+        for (int q = 0; q < NMANY; q++) { int i = order ? NMANY - 1 - q : q; if (!alive[i]) continue; int d = M[i].desc; if (liberasurecode_instance_destroy(d) != 0) mon_viol("C14", "destroy-failed", "final destroy of instance #%d failed", i); M[i].desc = -1; live_close(&M[i]); alive[i] = 0; }
+        if (registry_len() != base) mon_viol("C14", "registry-not-empty", "%d instances left registered after destroying all", registry_len() - base);
+        mon_distinct("nontrivial", mon_hash_u64((uint64_t)round, 145));
+        mon_end();
+    }
     if (mon_case_all("final-leakcheck")) { q_leakcheck("C14", "end of registry histories"); mon_end(); }
 }
 
